@@ -68,8 +68,13 @@ def confirm(cdir, sid):
         res['head'] = sh(['git', '-C', REPO, 'rev-parse', '--short', 'HEAD'])[1].strip()
     finally:
         drop(d)
-    res['kept'] = all(res.get(k) for k in ('applies', 'suite_passes_with_change', 'demo_fails_with_change',
-                                           'demo_passes_without_change'))
+    if sid.startswith('BENIGN'):
+        # behaviour-preserving refactoring: the differential test passes with and without the change
+        res['kept'] = bool(res.get('applies') and res.get('suite_passes_with_change') and not res.get('demo_fails_with_change')
+                           and res.get('demo_passes_without_change'))
+    else:
+        res['kept'] = all(res.get(k) for k in ('applies', 'suite_passes_with_change', 'demo_fails_with_change',
+                                               'demo_passes_without_change'))
     return res
 
 
@@ -87,7 +92,9 @@ def cmd_import(src):
             shutil.copy(os.path.join(cdir, 'patch.diff'), dst)
             shutil.copy(os.path.join(cdir, 'demo.rs'), dst)
             notes = open(os.path.join(cdir, 'notes.txt')).read() if os.path.exists(os.path.join(cdir, 'notes.txt')) else ''
-            meta = {'id': sid, 'breaks_property': sid.split('-')[0], 'needs_to_manifest': notes.strip(),
+            meta = {'id': sid, 'breaks_property': (None if sid.startswith('BENIGN') else sid.split('-')[0]),
+                    'kind': ('behaviour-preserving refactoring: every check must exit 0 or 2, never 1' if sid.startswith('BENIGN') else 'property-breaking change'),
+                    'needs_to_manifest': notes.strip(),
                     'confirmed': {k: r[k] for k in ('applies', 'suite_passes_with_change', 'demo_fails_with_change',
                                                     'demo_passes_without_change', 'head')},
                     'confirmation_commands': ['git apply patch.diff (scratch worktree of /repo HEAD)',
